@@ -9,6 +9,7 @@ one_prop() {  # $1 = kind, $2 = Cxx
   if [ $kind = seeded ]; then dirs=$(ls -d seeded/$P-* 2>/dev/null); else dirs=$(ls -d selftest/independent-harmless/$P-* 2>/dev/null); fi
   for d in $dirs; do
     n=$(basename $d); Q=$P
+    [ "$(jq -r '.stale // empty' $d/meta.json 2>/dev/null)" != "" ] && { echo "$n stale (does not apply to HEAD; see meta.json)"; continue; }
     # a seeded change annotated as caught by another property's check is run against that one
     if [ $kind = seeded ]; then o=$(jq -r '.confirmed.caught_by_quick_check_of // {} | to_entries | map(select(.value)) | .[0].key // empty' $d/meta.json 2>/dev/null); [ -n "$o" ] && [ "$(jq -r .confirmed.caught_by_quick_check $d/meta.json)" != true ] && Q=$o; fi
     out=$(tools/seedtest.sh $Q $d/patch.diff 2>&1); rc=$?
@@ -21,6 +22,6 @@ export -f one_prop
 for kind in seeded harmless; do
   [ $KIND = all ] || [ $KIND = $kind ] || continue
   seq -w 1 20 | sed 's/^/C/' | xargs -P $JOBS -I{} bash -c "one_prop $kind {}" | sort > design/regress-$kind.txt
-  if [ $kind = seeded ]; then echo "seeded: $(grep -c 'rc=1' design/regress-seeded.txt) caught of $(wc -l < design/regress-seeded.txt)"; grep -v 'rc=1' design/regress-seeded.txt
-  else echo "harmless: $(grep -c 'rc=0' design/regress-harmless.txt) quiet of $(wc -l < design/regress-harmless.txt)"; grep -v 'rc=0' design/regress-harmless.txt; fi
+  if [ $kind = seeded ]; then echo "seeded: $(grep -c 'rc=1' design/regress-seeded.txt) caught of $(wc -l < design/regress-seeded.txt)"; grep -v 'rc=1\|stale' design/regress-seeded.txt
+  else echo "harmless: $(grep -c 'rc=0' design/regress-harmless.txt) quiet of $(wc -l < design/regress-harmless.txt)"; grep -v 'rc=0\|stale' design/regress-harmless.txt; fi
 done
